@@ -221,7 +221,7 @@ def run(pid, tier):
             else:
                 # CPU-bound graph families: time, only where it is well above noise
                 measured.append({"name": name, "unit": o["unit"], "family": o["family"], "entry": o["entry"], "minn": 8,
-                                 "points": [{"n": p["n"], "work": max(1, p["minus"])} for p in pts if p["minus"] >= 5000 or p["n"] <= 8]})
+                                 "points": [{"n": p["n"], "work": max(1, p["minus"])} for p in timed_suffix(pts)]})
                 measured.append({"name": name + "#allocs", "unit": o["unit"], "family": o["family"], "entry": o["entry"], "minn": 32, "points": [{"n": p["n"], "work": max(1, p["mallocs"])} for p in pts]})
         mf = sc.path("pump_measured.ndjson")
         write_ndjson(mf, measured)
@@ -242,6 +242,20 @@ def run(pid, tier):
                 chk.known_finding("D15")
             else:
                 chk.violation(what, {"family": m["family"], "unit": m["unit"], "entry": m["entry"], "points": m["points"]})
+        # margins (recorded, not judged): the largest per-doubling ratio in the judged window, per kind of measurement
+        def maxratio(ms):
+            best = (0, "")
+            for m in ms:
+                p = [q for q in m["points"] if q["n"] >= m["minn"]]
+                for i in range(len(p) - 1):
+                    r = p[i + 1]["work"] / p[i]["work"]
+                    if r > best[0] and m not in bad:
+                        best = (round(r, 2), m["name"])
+            return best
+        timed = [m for m in measured if "#allocs" not in m["name"] and m["minn"] == 8]
+        chk.notes.append("largest per-doubling ratio outside the reported series: allocation counts %s, wall time %s (violation needs two consecutive ratios >= 4.8)"
+                         % (maxratio([m for m in measured if m not in timed]), maxratio(timed)))
+        log("  " + chk.notes[-1])
         log("  [%.0fs]" % (time.time() - chk.t0))
         log("c: %d measurement series over %d pumped families; WorkWithinQuadratic %s" % (len(measured), len(fams), "holds" if not bad else "fails for %d series" % len(bad)))
         states += gen.distinct + pv.distinct
@@ -267,6 +281,15 @@ def run(pid, tier):
         return chk.finish()
     finally:
         sc.cleanup()
+
+
+def timed_suffix(pts):
+    """the longest run of consecutive doublings at the end of a series in which every call took at least 5 ms (below that, wall
+    time is noise); consecutive, so that every ratio the growth bound looks at is a ratio per ONE doubling"""
+    k = len(pts)
+    while k > 0 and pts[k - 1]["minus"] >= 5000:
+        k -= 1
+    return pts[k:]
 
 
 def known_class(findings, m):
